@@ -31,8 +31,9 @@ func c22(x *ctx) {
 		"--hover --row=<call row> prints a %<method>::: record. non-trivial = all"
 	r.Assumptions = []string{"visibility tag of class methods is not checked (Ruby: always public; the statement says 'in effect at the definition')"}
 	// the last three kinds return an instance of a user class (the class itself / a peer class in the same namespace)
-	kinds := []string{"plain", "private", "protected", "public", "def-self", "class-self", "endless", "multiline", "endless-multiline", "returns-own", "self-returns-own", "returns-peer", "returns-top-peer"}
-	nOldKinds := 9
+	kinds := []string{"plain", "private", "protected", "public", "def-self", "class-self", "endless", "multiline", "endless-multiline", "class-self-private", "class-self-protected",
+		"returns-own", "self-returns-own", "returns-peer", "returns-top-peer"}
+	nOldKinds := 11
 	maxLen := 3
 	if thorough {
 		maxLen = 4
@@ -123,6 +124,16 @@ func c22(x *ctx) {
 					line(ind + "      a")
 					line(ind + "    end")
 					line(ind + "  end")
+				case "class-self-private", "class-self-protected":
+					// the block has a visibility section of its own; the enclosing section continues after it
+					line(ind + "  class << self")
+					line(ind + "    " + strings.TrimPrefix(k, "class-self-"))
+					line("")
+					line(ind + "    def " + name + "(a)")
+					ms = append(ms, c22method{name: name, defRow: row, static: true, nparams: 1, kind: k})
+					line(ind + "      a")
+					line(ind + "    end")
+					line(ind + "  end")
 				case "returns-own":
 					line(ind + "  def " + name + "(a)")
 					ms = append(ms, c22method{name: name, defRow: row, vis: vis, nparams: 1, kind: k})
@@ -207,6 +218,8 @@ func c22(x *ctx) {
 				case ms[i].kind == "top-level":
 					line(ms[i].name + "(" + args + ")")
 					ms[i].callRow = row
+				case ms[i].static && strings.HasPrefix(ms[i].kind, "class-self-p"):
+					// a private / protected class method: not called from outside (only its -i hint is checked)
 				case ms[i].static:
 					line(q + "Gizmo." + ms[i].name + "(" + args + ")")
 					ms[i].callRow = row
